@@ -89,12 +89,23 @@ def run_faulted(cfg):
             return "scalar"
         return int(np.size(s2))
 
+    def start_kind(h):
+        """the start point handed to fit: 'none' | 'zeros' (every entry exactly 0) | 'other'"""
+        if h is None:
+            return "none"
+        try:
+            h = np.asarray(h, dtype=float)
+            return "zeros" if h.size > 0 and bool(np.all(h == 0.0)) else "other"
+        except Exception:        # noqa: BLE001
+            return "other"
+
     def w_fit(self, X=None, y=None, s2=None, *a, **k):
         j = cnt["fit"]
         cnt["fit"] += 1
         caller = sys._getframe(1).f_code.co_name
         attempts.append(dict(j=j, caller=caller, nX=None if X is None else int(np.shape(X)[0]), nY=None if y is None else int(np.shape(y)[0]),
-                             s2=size_of(s2), tmp=size_of(self.s2), faulted=j in faults, raised=False))
+                             s2=size_of(s2), tmp=size_of(self.s2), faulted=j in faults, raised=False,
+                             start=start_kind(k.get("hyp0"))))
         if j in faults:
             Xc, yc, s2c = self._convert_shapes(X, y, s2)
             if Xc is not None:
